@@ -145,6 +145,12 @@ def worker(ctx, job):
             fsutil.wipe(real_cache)
             fsutil.wipe(dest)
             expected_keys = ["bystander"]
+            if temp == "tmp-blocked":
+                # a healthy cache whose tmp/ has been replaced by a regular file: every writer has to fail inside the root
+                wr.do_write(srv, real_cache, side="s", entry="oneshot", key="bystander", n=3, tag=1)
+                fsutil.wipe(os.path.join(real_cache, "tmp"))
+                with open(os.path.join(real_cache, "tmp"), "wb") as fh:
+                    fh.write(b"not a directory")
             if temp == "index-only":
                 # a cache that holds nothing but raw index entries (public index::insert)
                 srv.call({"op": "index_insert", "cache": real_cache, "key": key if key is not None else "only", "opts": {"integrity": sri(OLD), "time": "1", "size": 7}})
@@ -261,6 +267,8 @@ def main(tier, seed=0):
                 jobs.append({"flavour": flavour, "side": side, "temp": temp, "rootform": rootform, "ops": UNKEYED, "keys": []})
         jobs.append({"flavour": flavour, "side": side, "temp": "index-only", "rootform": "abs", "ops": ["remove_fully", "remove", "index_delete", "read", "metadata", "writer"], "keys": keys[:6]})
         jobs.append({"flavour": flavour, "side": side, "temp": "index-only", "rootform": "abs", "ops": ["list", "clear", "index_ls"], "keys": []})
+        jobs.append({"flavour": flavour, "side": side, "temp": "tmp-blocked", "rootform": "abs", "ops": ["write", "write_with_algo", "writer", "writer_dropped", "writer_create", "link_to"], "keys": keys[:3]})
+        jobs.append({"flavour": flavour, "side": side, "temp": "tmp-blocked", "rootform": "abs", "ops": ["write_hash", "link_to_hash", "list", "read_hash"], "keys": []})
     if quick:
         jobs.append({"flavour": "sync", "side": "s", "temp": "warm", "rootform": "rel", "ops": KEYED[:6] + UNKEYED, "keys": keys[:4]})
         jobs.append({"flavour": "astd", "side": "a", "temp": "warm", "rootform": "symlink", "ops": KEYED[:6] + UNKEYED, "keys": keys[:4]})
